@@ -24,10 +24,24 @@ var kindNames = map[string]string{
 // boundsRun analyses the entries (one engine per entry, in parallel) and reports every
 // aggregated obligation under rule BOUNDS.<kind>.
 func boundsRun(c *Ctx, entries []*ssa.Function, hooks *bounds.Hooks) int {
+	if c.Tier == "thorough" && !c.secondPass {
+		// thorough = the quick configuration plus a higher-precision one; both are sound, so an
+		// obligation counts as discharged when either run discharges it (precision is not
+		// monotone in the disjunct cap because different merges happen)
+		c.thoroughOK = map[string]bool{}
+		c.secondPass, c.collectOnly = true, true
+		c.cfgOverride = &bounds.Config{K: 128, MaxDepth: 9, RetCap: 16}
+		boundsRun(c, entries, hooks)
+		c.collectOnly = false
+		c.cfgOverride = &bounds.Config{K: 64, MaxDepth: 7, RetCap: 8}
+		n := boundsRun(c, entries, hooks)
+		c.secondPass, c.cfgOverride = false, nil
+		return n
+	}
 	p, r := c.Prog, c.R
 	cfg := bounds.Config{K: 64, MaxDepth: 7, RetCap: 8}
-	if c.Tier == "thorough" {
-		cfg = bounds.Config{K: 128, MaxDepth: 9, RetCap: 16}
+	if c.cfgOverride != nil {
+		cfg = *c.cfgOverride
 	}
 	t0 := time.Now()
 	var uniq []*ssa.Function
@@ -138,6 +152,28 @@ func boundsRun(c *Ctx, entries []*ssa.Function, hooks *bounds.Hooks) int {
 			text = o.Text + ": " + text
 		}
 		fname := core.FuncName(o.Fn)
+		if c.collectOnly {
+			// first (high-precision) pass of the thorough tier: remember what it discharged
+			failed := map[string]bool{}
+			for _, via := range a.failVia {
+				failed[via] = true
+			}
+			for _, fn := range uniq {
+				if !failed[core.FuncName(fn)] {
+					c.thoroughOK[k+"|"+core.FuncName(fn)] = true
+				}
+			}
+			continue
+		}
+		if c.thoroughOK != nil {
+			var still []string
+			for _, via := range a.failVia {
+				if !c.thoroughOK[k+"|"+via] {
+					still = append(still, via)
+				}
+			}
+			a.failVia = still
+		}
 		if len(a.failVia) == 0 {
 			n++
 			r.Add("BOUNDS."+o.Kind, fname, text, p.Position(o.Pos), true, "")
@@ -155,6 +191,9 @@ func boundsRun(c *Ctx, entries []*ssa.Function, hooks *bounds.Hooks) int {
 			r.Add("BOUNDS."+o.Kind, fname, t, p.Position(o.Pos), false,
 				fmt.Sprintf("%s not entailed: %s", kindNames[o.Kind], a.details[via]))
 		}
+	}
+	if c.collectOnly {
+		return 0
 	}
 	r.Infof("BOUNDS: %d entries, %d functions, %d obligations, %d entailment queries, %d feasibility queries, %d instruction steps, %.1fs wall (K=%d depth=%d)",
 		len(uniq), len(nfuncs), n, totalEn, totalFe, totalSt, time.Since(t0).Seconds(), cfg.K, cfg.MaxDepth)
